@@ -1,12 +1,10 @@
 """WFQ: an arrival in the very instant in which the last transmission of a busy period ends -- processed after
-out.put() of that packet (the scheduler is observably empty: size() == 0 for every flow, packet_in_service is None)
-but before the scheduler loop's bookkeeping burst -- is stamped from the OLD virtual time and finish times instead
-of V = F = 0.  Whether a source's timer falls into that window only depends on when the timer was created (after the
-start of the last transmission).  Here this changes the service order: by the stated rule C (stamp 1) precedes
-D (stamp 1.5); the scheduler stamps C with 5.0, D with 4.75 and sends D first.
-
-NOT fixed, NOT a known finding: reported for adjudication (the C14 check models the code: the scheduler 'empties'
-in its bookkeeping burst)."""
+out.put() of that packet (the scheduler is empty: size() == 0 for every flow, packet_in_service is None) but before the
+scheduler loop's bookkeeping burst -- must start a new busy period (V = F = 0).  Before commit 89492cc put() tested the
+active set, which the loop clears only when it resumes, and stamped such a packet from the OLD virtual time and finish
+times: C got 5.0 and D 4.75, and D left before C although by the stated rule C (stamp 1) precedes D (stamp 1.5).
+Whether a source's timer falls into that window only depends on when the timer was created (after the start of the last
+transmission)."""
 from onl.sim import Environment
 from onl.packet import Packet
 from onl.scheduler import WFQ
@@ -31,4 +29,5 @@ print('scheduler state seen by the source just before put(C):', seen['empty'])
 print('keys:', seen['keys'])
 print('departures:', out)
 assert seen['empty'] == (0, 0, None, 0)
-assert [i for _, i in out] == ['A', 'B', 'C', 'D'], 'D (stamp 1.5 by the rule) left before C (stamp 1 by the rule)'
+assert seen['keys'] == [('C', (1.0, 5.0)), ('D', (1.5, 5.0))], 'stamps must restart from 0'
+assert [i for _, i in out] == ['A', 'B', 'C', 'D'], 'C (stamp 1) must leave before D (stamp 1.5)'
